@@ -44,5 +44,6 @@ def run(ctx):
     R3.r10_8_each_class_once(ctx, 'R06.14')
     from . import alias_rules as A_
     A_.r05_17_dump_cycle_walk(ctx, 'R06.15')
+    D.r06_16_replaced_node_filed(ctx)
     from . import memo_rules as M
     M.memo_sound(ctx, 'R06.M')
